@@ -929,3 +929,97 @@ print('NOT-REPRODUCED'); sys.exit(0)
 '''
 
 PROBES = [("a value arriving through a reference is held to the parameter's constraints", REF_VALUES_REPLAY)]
+
+
+# ---------------------------------------------------------------------------------------------
+# concrete probe: text validators on text outside ASCII.  The statement's valid_Color / valid_String are
+# defined on code points: a hex colour has 3 or 6 characters from 0-9a-fA-F, nothing else that some
+# regular-expression class would also call a digit
+# ---------------------------------------------------------------------------------------------
+TEXT_VALUES_REPLAY = '''import sys, os, itertools
+sys.path.insert(0, os.environ.get('PYVC_REPO', '/repo'))
+import param
+bad = []
+HEX = set('0123456789abcdefABCDEF')
+def valid_color(v, named):
+    if not isinstance(v, str): return False
+    body = v[1:] if v.startswith('#') else v
+    if len(body) in (3, 6) and all(ch in HEX for ch in body): return True
+    return named and v.lower() in param.Color._named_colors
+CANDIDATES = ['#123', '#\\u0661\\u0662\\u0663', '\\uff11\\uff12\\uff13', '#\\u0967\\u0968\\u0969abc', '#12\\u0663', 'a\\u0660b',
+              '#abcdeg', '#ab', '#abcd', 'ABCDEF', '#\\u00b2\\u00b3\\u00b9', 'red', 'RED', 'r\\u0435d']
+for v, named in itertools.product(CANDIDATES, (True, False)):
+    want = valid_color(v, named)
+    class P(param.Parameterized):
+        c = param.Color(default='#000000', allow_named=named)
+    routes = {'set': lambda p: setattr(p, 'c', v), 'update': lambda p: p.param.update(c=v), 'class': lambda p: setattr(P, 'c', v),
+              'ctor': lambda p: P(c=v), 'declare': lambda p: param.Color(default=v, allow_named=named)}
+    for how, do in routes.items():
+        p = P()
+        try:
+            do(p); got = True
+        except ValueError:
+            got = False
+        if got != want:
+            bad.append('Color(allow_named=%r), route %s: %r is %s, the statement says %s'
+                       % (named, how, v, 'accepted' if got else 'refused', 'valid' if want else 'invalid'))
+if bad:
+    print('REPRODUCED: ' + bad[0]); sys.exit(1)
+print('NOT-REPRODUCED'); sys.exit(0)
+'''
+
+PROBES = PROBES + [("hex colours are made of 0-9a-fA-F only (non-ASCII digits)", TEXT_VALUES_REPLAY)]
+
+
+# ---------------------------------------------------------------------------------------------
+# concrete probe: the constraints in force are those of the nearest class — also for a class several
+# levels below one that acquired a tighter Parameter AFTER the lower class had been used
+# ---------------------------------------------------------------------------------------------
+DEEP_TIGHTEN_REPLAY = '''import sys, os, itertools
+sys.path.insert(0, os.environ.get('PYVC_REPO', '/repo'))
+import param
+bad = []
+for depth, how, used in itertools.product((1, 2, 3), ('assign+bounds', 'add_parameter', 'assign-parameter'), ('instance', 'namespace', 'values')):
+    class A(param.Parameterized):
+        x = param.Number(default=1, bounds=(0, 10))
+    class B(A):
+        pass
+    chain = [B]
+    for k in range(depth):
+        chain.append(type('L%d' % k, (chain[-1],), {}))
+    D = chain[-1]
+    d0 = D()
+    if used == 'namespace':
+        D.param['x']          # (an instance-level copy made now would rightly keep the constraints it was copied with)
+    elif used == 'values':
+        D.param.values(); d0.param.values()
+    if how == 'assign+bounds':
+        B.x = 3; B.param.x.bounds = (0, 4)
+    elif how == 'add_parameter':
+        B.param.add_parameter('x', param.Number(default=3, bounds=(0, 4)))
+    else:
+        B.x = param.Number(default=3, bounds=(0, 4))
+    for route, do in (('set', lambda o: setattr(o, 'x', 8)), ('update', lambda o: o.param.update(x=8)),
+                      ('namespace-then-set', lambda o: (o.param.x, setattr(o, 'x', 8))), ('ctor', lambda o: D(x=8)),
+                      ('class', lambda o: setattr(D, 'x', 8))):
+        for o, which in ((d0, 'instance made before'), (D(), 'instance made after')):
+            try:
+                do(o)
+                bad.append('%s below the class that tightened x to (0, 4) by %s (lower class used through %s), route %s on the %s: 8 is accepted'
+                           % ('%d level(s)' % depth, how, used, route, which))
+            except ValueError:
+                pass
+            except Exception as e:
+                bad.append('%s below the class that tightened x to (0, 4) by %s (lower class used through %s), route %s on the %s: %s: %s'
+                           % ('%d level(s)' % depth, how, used, route, which, type(e).__name__, e))
+    for o in (d0, D()):
+        try:
+            o.param.update(x=2)
+        except Exception as e:
+            bad.append('%d level(s) below the class that tightened x to (0, 4) by %s: update(x=2) with a valid value raises %s: %s' % (depth, how, type(e).__name__, e))
+if bad:
+    print('REPRODUCED: ' + bad[0]); sys.exit(1)
+print('NOT-REPRODUCED'); sys.exit(0)
+'''
+
+PROBES = PROBES + [("constraints tightened on an ancestor after the lower classes were used", DEEP_TIGHTEN_REPLAY)]
